@@ -651,3 +651,54 @@ ASSUMPTIONS = [
 def shrink_world(trace, still_fails):
     """Drop datasets that no step uses (ids are kept stable)."""
     return None
+
+
+# --------------------------------------------------------------------------------------
+# complete interval space for short series (both tiers; longer series in thorough)
+# --------------------------------------------------------------------------------------
+def exhaustive_tasks(tier):
+    ns = (5, 8) if tier != "thorough" else (5, 8, 12, 16)
+    return [{"kind": k, "mode": m, "p": p, "n": n} for k in ("l2", "gv", "gc") for m in (0, 1, 2) for p in (1, 2, 3) for n in ns]
+
+
+def run_exhaustive(seed, idx, tier, pristine=None):
+    """Every admissible interval of a short series: one all-intervals batch under a
+    permuted prange, the reversed batch, and every interval as a singleton."""
+    tasks = exhaustive_tasks(tier)
+    t = tasks[idx % len(tasks)]
+    rng = core.make_rng(seed, "C01", 10**6 + idx)
+    kind, p, n = t["kind"], t["p"], t["n"]
+    X = gen_X(rng, 0, shape=(n, p))
+    if t["mode"] == 0:
+        param = None
+    else:
+        param = None
+        while param is None:
+            param = gen_param(rng, kind, p)
+        if t["mode"] == 1 and kind == "l2":
+            param = round(float(rng.normal()), 3)
+    ms = min_size(kind, p)
+    cuts = [[s, e] for s in range(n) for e in range(s + ms, n + 1)]
+    steps = [{"op": "new", "param": param}, {"op": "fit", "d": 0, "container": "ndarray", "dtype": "float64"}]
+    if cuts:
+        order = list(range(len(cuts)))
+        rng.shuffle(order)
+        steps.append({"op": "eval", "cuts": cuts, "perm": int(rng.integers(1 << 30))})
+        steps.append({"op": "eval", "cuts": cuts[::-1], "perm": int(rng.integers(1 << 30))})
+        steps.append({"op": "eval", "cuts": [cuts[j] for j in order]})
+        for c in cuts:
+            steps.append({"op": "eval", "cuts": [c], "as1d": bool(rng.random() < 0.5)})
+    trace = {"property": "C01", "seed": int(seed), "run": int(idx), "tier": "exhaustive", "kind": kind, "config": {"instances": 1, "exhaustive": t}, "datasets": [{"id": 0, "family": 0, "p": p, "values": X.tolist()}], "steps": steps}
+    res = replay(trace)
+    res["signature"] = core.digest(["exhaustive", t])
+    res["stats"].setdefault("probes", {})["exhaustive_interval_cases"] = len(cuts)
+    return res
+
+
+def extra_checks(seed, tier, args):
+    from histsim import runner
+
+    tasks = exhaustive_tasks(tier)
+    res = runner.run_batch("C01", seed, tier, list(range(len(tasks))), workers=args.workers, per_run_guard=300, chunk=4, fn="run_exhaustive")
+    n_int = sum(r.get("stats", {}).get("probes", {}).get("exhaustive_interval_cases", 0) for r in res if "stats" in r)
+    return res, {"exhaustive_interval_space": {"tasks": len(tasks), "intervals": int(n_int), "complete": True, "what": "for each cost x {optimal, fixed, fixed per-column / matrix} x p in 1..3 x n in {5, 8} (thorough: also 12, 16): every admissible interval, as one batch under a permuted prange, reversed, shuffled, and as singletons (2-D and 1-D)"}}
